@@ -42,7 +42,8 @@ def flat_model_case(case):
 def generate(rnd, tier):
     n = 400 if tier == "quick" else 5000
     sid = SidCounter()
-    cases = [with_cc(gen_flat(rnd, sid)) for _ in range(n)]
+    from harness.props.C01 import gen_c01
+    cases = [with_cc(gen_flat(rnd, sid)) for _ in range(n)] + [with_cc(gen_c01(rnd, sid)) for _ in range(n // 2)]
     for _ in range(n):
         c = gen_case(rnd, rnd.choice(["tame", "tame", "app", "loop"]), sid)
         c["deliver_at"] = []          # delivery points are indices into a log that may differ between the loops: deliver only when blocked
